@@ -510,6 +510,32 @@ theorem field_checker_direct_lookup_breaks_split_chunks :
     fmConcat ["A", "B"] (fmStream false ms cs) = .error errNotAssignable := by
   refine ⟨by rfl, by rfl, by rfl, by rfl⟩
 
+deriving instance DecidableEq for Except
+
+/-- what fails outside `SplitOK` (the hypothesis of `field_mapped_chunks_agree` cannot be dropped; known
+    finding `C04:fmap:paradigms:invoke=ok,streamed=err:nil-beside-value-under-checked-key`): a chunk that
+    carries an explicit nil under a key whose value another chunk carries is not a well-formed split in
+    the sense of `SplitOK`, yet the chunks concatenate to the value (`concatVals` skips nil, as
+    `concatMaps` does). Value mode accepts the concatenated value; stream mode refuses the nil chunk when
+    the mapping is checked and its target cannot be nil — in either order of the two chunks. With an
+    unchecked or a nilable target both modes agree on the same chunks. -/
+theorem field_mapped_nil_beside_value_disagrees :
+    let m : FMapping := { src := "a", dst := "A" }
+    let cs : List FChunk := [[("a", .nilV)], [("a", .good "x")]]
+    ¬ SplitOK (occ "a" cs) ∧
+    concatCols cs ["a"] = .ok [("a", .good "x")] ∧ concatCols cs.reverse ["a"] = .ok [("a", .good "x")] ∧
+    fmValue [m] [("a", .good "x")] = .ok [("A", .good "x")] ∧
+    fmConcat ["A"] (fmStream true [m] cs) = .error errNotAssignable ∧
+    fmConcat ["A"] (fmStream true [m] cs.reverse) = .error errNotAssignable ∧
+    fmConcat ["A"] (fmStream true [{ m with checked := false }] cs) = .ok [("A", .good "x")] ∧
+    fmConcat ["A"] (fmStream true [{ m with nilable := true }] cs) = .ok [("A", .good "x")] := by
+  refine ⟨?_, by decide, by decide, by decide, by decide, by decide, by decide, by decide⟩
+  intro h
+  rcases h with h | h
+  · have := h .nilV (by decide)
+    exact absurd this (by decide)
+  · exact absurd h (by decide)
+
 /-! non-vacuity: the hypotheses of `field_mapped_chunks_agree` hold for a three-chunk split with a
     string in two pieces, a key per chunk and an unmapped key; a refused value is refused in both modes -/
 example : let cs : List FChunk := [[("a", .good "x1")], [("b", .good "y"), ("z", .wrong)], [("a", .good "x2")]]
